@@ -3,12 +3,13 @@
    alphabet, decoding to the number of value units after padding - followed by the padded value in the field's
    encoding, and bytes laid out that way unpack to the value; for every tagged or positional composite: its prefix
    followed by its set subfields - and nothing else - in the spec's sort order, each preceded by its encoded tag when
-   tags travel; for every message (auto-expanding bitmap): the MTI, then the bitmap of k >= 1 blocks in which the first
-   bit of a block is set iff another block follows and, elsewhere, bit i is set iff data element i is populated, then
+   tags travel; for every message (auto-expanding or fixed bitmap): the MTI, then the bitmap - with expansion k >= 1
+   blocks in which the first bit of a block is set iff another block follows - in which, elsewhere, bit i is set iff
+   data element i is populated, then
    the populated data elements in strictly ascending order. Conversely these bytes unpack to the values they were
-   built from (C01_field_roundtrip, C01_message_roundtrip). Composites with a bitmap of subfields and fixed message
-   bitmaps: the independent encoder of the harness (harness/reflayout.go) is the reference, compared with Pack/Unpack
-   on every generated case. *)
+   built from (C01_field_roundtrip, C01_message_roundtrip). For composites with a (fixed) bitmap of subfields: prefix,
+   bitmap in which bit n is set iff subfield n is set, the set subfields in id order. The independent encoder of the
+   harness (harness/reflayout.go) is compared with Pack/Unpack on every generated case as well. *)
 From Iso Require Import Model.Base Model.Padding Model.Encoding Model.Prefix Model.Bitmap Model.Spec Model.Field Model.Message
      Proofs.BaseLemmas Proofs.EncodingProofs Proofs.PrefixProofs Proofs.FieldProofs Proofs.CompositeProofs Proofs.MessageRoundtrip Proofs.LayoutProofs.
 From Coq Require Import Sorting.Sorted Sorting.Permutation.
@@ -20,7 +21,7 @@ Theorem C03_prim_layout : forall p st b, coherent_pspec p -> prim_in_domain p st
     (ps_pref p <> PBerTLV -> zlen pre = pref_width (ps_pref p)) /\ pref_alphabet (ps_pref p) pre = true /\
     (forall rest, dec_len (ps_pref p) (ps_len p) (pre ++ rest) = Ok (zlen (pad (ps_pad p) raw (ps_len p)), zlen pre)).
 Proof.
-  intros p st b (Hwf & Hve & Hpk & HL) (Hcan & raw & Hraw & Hpad & Hdom & Hmax) Hp.
+  intros p st b (Hwf & Hve & Hpk & HL) (raw & Hraw & Hset & Hdom & Hmax) Hp.
   unfold prim_pack in Hp. rewrite Hraw in Hp. cbn [obind] in Hp. unfold prim_pack_raw in Hp. rewrite Hpk in Hp.
   destruct (enc_encode (ps_enc p) _) as [body| | |] eqn:Ee; cbn [obind] in Hp; try discriminate.
   destruct (enc_len (ps_pref p) (ps_len p) _) as [pre| | |] eqn:Ep; cbn [obind] in Hp; try discriminate.
@@ -45,12 +46,23 @@ Theorem C03_composite_layout : forall pref len t subs set sts b, wf_pref pref ->
 Proof. exact comp_layout. Qed.
 Print Assumptions C03_composite_layout.
 
+Theorem C03_bitmap_composite_layout : forall pref len b subs set sts bytes0, wf_pref pref -> bm_auto b = false ->
+  (forall tag, In tag (map fst subs) -> canon tag) ->
+  pack_f (FComp pref len (CBitmap b) subs) (SComp set sts) = Ok bytes0 ->
+  exists pre bmf pbm fields,
+    bytes0 = pre ++ pbm ++ fields /\ bm_pack b bmf = Ok pbm /\ zlen bmf = zlen (bm_new b) /\
+    (forall m, bm_isset bmf m = existsb (fun tag => bmem tag set && (num_of tag =? m)) (ordered_tags (CBitmap b) subs)) /\
+    pack_sel (gop subs) sts (filter (fun tag => bmem tag set) (ordered_tags (CBitmap b) subs)) = Ok fields /\
+    enc_len pref len (zlen (pbm ++ fields)) = Ok pre.
+Proof. exact comp_bitmap_layout. Qed.
+Print Assumptions C03_bitmap_composite_layout.
+
 (* the order of the elements: the tags of the specification, sorted *)
 Theorem C03_composite_order : forall mode subs, Permutation (map fst subs) (ordered_tags mode subs).
 Proof. exact ordered_tags_is_perm. Qed.
 Print Assumptions C03_composite_order.
 
-Theorem C03_message_layout : forall S m m' b, bm_auto (ms_bm S) = true -> 1 <= bm_len (ms_bm S) ->
+Theorem C03_message_layout : forall S m m' b f, 1 <= bm_len (ms_bm S) -> (bm_enc (ms_bm S) = EncBinary \/ bm_enc (ms_bm S) = EncHex) -> bm_pref (ms_bm S) = PFixed f ->
   NoDup (m_present m) -> zmem 0 (m_present m) = true ->
   (forall id, zmem id (m_present m) = true -> id = 0 \/ id = 1 \/ (2 <= id /\ bm_is_presence_bit (ms_bm S) id = false)) ->
   m_pack S m = (m', Ok b) ->
